@@ -2,6 +2,8 @@
 
 from __future__ import annotations
 
+from ..vloop import texc
+
 from typing import Any
 
 from xknx import XKNX
@@ -35,7 +37,7 @@ class TunnelWorld(World):
         self.tunnel = UDPTunnel(self.xknx, self.up.append, gateway_ip=GW_ADDR[0], gateway_port=GW_ADDR[1], local_ip="192.168.1.2", route_back=route_back)
         t = self.spawn(self.tunnel.connect())
         self.loop.settle()
-        assert t.done() and t.exception() is None, t
+        assert t.done() and texc(t) is None, t
         self.channel = self.tunnel.communication_channel
 
     def feed(self, counter: int, channel: int | None = None, payload: int = 0) -> tuple[list[Any], list[bytes]]:
@@ -60,7 +62,7 @@ class MgmtWorld(World):
         self.transport = UDPTransport(local_addr=("192.168.1.2", 0), remote_addr=GW_ADDR)
         t = self.spawn(self.transport.connect())
         self.loop.settle()
-        assert t.done() and t.exception() is None
+        assert t.done() and texc(t) is None
         self.channel = 5
         self.dm = DeviceManagement(self.transport, self.channel, self.up.append, data_endpoint=GW_ADDR)
         self.dm.start()
